@@ -204,6 +204,33 @@ def _rule_r23(text, log):
     return text
 
 
+def _rule_r24(text, log):
+    """`X.sort_by(|a, b| { BODY });`  ->  the comparator is bound to a name and handed to `vec_sort_by` (prelude seqs,
+    ASSUMED std contract of sort_by): `{ let __cmpN = |a: __ELTN, b: __ELTN| -> (__o: Ordering) /*@closure N*/ { BODY };
+    vec_sort_by(X, __cmpN); }`.  The element type comes from a unit rule `S:__ELTN=>..`, the closure's contract
+    from the `//@closure N` section of the item (spliced at the marker)."""
+    n = 0
+    while True:
+        m = rs.mask(text)
+        mm = re.search(r'\b([a-z_][a-z0-9_]*)\s*\.sort_by\(\s*\|\s*([a-z_][a-z0-9_]*)\s*,\s*([a-z_][a-z0-9_]*)\s*\|\s*\{', m)
+        if not mm:
+            break
+        n += 1
+        ob = mm.end() - 1
+        cb = rs.match_brace(m, ob)
+        op = m.index('(', mm.start())
+        cp = rs.match_brace(m, op)
+        if m[cb + 1:cp].strip() != '':
+            raise Unsupported('R24: sort_by closure shape not recognised')
+        body = text[ob:cb + 1]
+        rep = ('{ let __cmp%d = |%s: __ELT%d, %s: __ELT%d| -> (__o: core::cmp::Ordering) /*@closure %d*/ %s;\n'
+               '            vec_sort_by(%s, __cmp%d); }') % (n, mm.group(2), n, mm.group(3), n, n, body, mm.group(1), n)
+        text = text[:mm.start()] + rep + text[cp + 1:]
+    if n:
+        log.append(('R24', n))
+    return text
+
+
 _UNARY_PREV = set('(,=[{;<>+-*/%!&|:?')
 
 
@@ -745,6 +772,8 @@ def apply_rewrites(text, log, rules, keep_eq=False):
         text = _rule_d2(text, log)
     if 'R18' in rules:
         text = _rule_r18(text, log)
+    if 'R24' in rules:
+        text = _rule_r24(text, log)
     if 'R20' in rules:
         text = _rule_r20(text, log)
     if 'R23' in rules:
@@ -822,7 +851,7 @@ def _apply_subst(text, log, rules):
     for r in rules:
         if r.startswith('SW:'):
             # like S, but whitespace-insensitive: the pattern may span lines in the source
-            old, new = r[3:].split('=>')
+            old, new = r[3:].split('=>', 1)
             toks = [re.escape(t) for t in old.split()]
             rx = re.compile(r'\s*'.join(toks))
             text, cnt = rx.subn(lambda m_: new.replace('\\n', '\n'), text)
@@ -832,7 +861,7 @@ def _apply_subst(text, log, rules):
         if r.startswith('S:'):
             # unit-declared token substitution  S:old=>new  (listed in evidence; used only for
             # dependency paths such as `nalgebra::Vector3` -> `Vector3`)
-            old, new = r[2:].split('=>')
+            old, new = r[2:].split('=>', 1)
             cnt = text.count(old)
             if cnt:
                 text = text.replace(old, new)
@@ -991,6 +1020,13 @@ def splice_fn(item_text, ann, log):
         close = rs.match_brace(mb, k)
         inner = splice_fn(body[j:close + 1], nann, log)
         body = body[:j] + inner + body[close + 1:]
+    # contracts of closures bound by rule R24 (markers are comments, so they do not move any anchor)
+    for cn, ctxt in (ann.get('closures') or {}).items():
+        mk = '/*@closure %d*/' % cn
+        if mk in body:
+            body = body.replace(mk, '\n' + ctxt + '\n', 1)
+        else:
+            lost.append('closure %d: marker not found' % cn)
     # loops / before-anchors are located on the body text; collect insertions as (pos, text)
     ins = []
     mbody = rs.mask(body)
@@ -1210,6 +1246,8 @@ def generate(unit_path, repo=REPO):
                         ann['start'] = txt
                     elif section == 'tail':
                         ann['tail'] = txt
+                    elif section == 'closure':
+                        ann.setdefault('closures', {})[sect_arg] = txt
                     elif section == 'traitspec':
                         top_ann['traitspec'] = txt
                     elif section == 'loop':
@@ -1233,6 +1271,9 @@ def generate(unit_path, repo=REPO):
                             nm = d2.split()
                             ann = dict(attr=[], loops={}, loopend={}, loopstart={}, preloop={}, postloop={}, before=[], ret=dict(re.findall(r'(ret)=(\S+)', d2)).get('ret'), nested={})
                             top_ann['nested'][nm[1]] = ann
+                        elif d2.startswith('closure '):
+                            section = 'closure'
+                            sect_arg = int(d2.split()[1])
                         elif d2 == 'traitspec':
                             section = 'traitspec'
                         elif d2.startswith('method '):
